@@ -672,6 +672,11 @@ fn stage3(ctx: &Ctx, rep: &mut Report) -> Result<(), String> {
             st.program.build_commit = "a\"b\\c\nd".to_string();
         }
         let bytes = serde_json::to_vec(&st).unwrap();
+        if tape.chance(1, 5) {
+            // an earlier scrape of some other state that the client aborted while the exporter was working on it
+            aborted_scrape(&exp, crate::c20::valid_payload(), 24);
+            out.label("after-aborted-scrape");
+        }
         *exp.obs.default_payload.lock().unwrap() = bytes;
         match http_get(&exp.addr, Duration::from_secs(5)) {
             Err(e) => {
